@@ -313,7 +313,7 @@ pub fn run(args: &Args) -> i32 {
     if rep.too_many_fails() {
         return rep.finish();
     }
-    let n = args.scale(48_000, 800_000);
+    let n = args.scale(100_000, 800_000);
     for i in 0..n {
         if !args.mine(i) {
             continue;
